@@ -101,6 +101,24 @@ Definition ep_neighbours (v : bview) (sq pawn : N) : option bool :=
   do r <- sq_to sq DE;
   if r =? 64 then Some false else do x <- board_at v r; Some (x =? pawn).
 
+(* position.go:385-417: the en-passant clause of IsAttacked *)
+Definition is_attacked_ep (v : bview) (sq by_ : N) : option bool :=
+  (* 385: if p.enPassantSquare != SqNone { switch by { *)
+  if vep v =? 64 then Some false else
+  if by_ =? WHITE then
+    (* 389: if p.board[p.enPassantSquare.To(South)] == BlackPawn && p.enPassantSquare.To(South) == sq *)
+    do t <- sq_to (vep v) DS;
+    do pc <- board_at v t;
+    if (pc =? mk_piece BLACK PAWN) && (t =? sq) then ep_neighbours v sq (mk_piece WHITE PAWN)
+    else Some false
+  else if by_ =? BLACK then
+    (* 403: if p.board[p.enPassantSquare.To(North)] == WhitePawn && p.enPassantSquare.To(North) == sq *)
+    do t <- sq_to (vep v) DN;
+    do pc <- board_at v t;
+    if (pc =? mk_piece WHITE PAWN) && (t =? sq) then ep_neighbours v sq (mk_piece BLACK PAWN)
+    else Some false
+  else Some false.
+
 Definition is_attacked_impl (v : bview) (sq by_ : N) : option bool :=
   (* 365: occupiedAll := p.OccupiedAll() *)
   let occ := occ_all v in
@@ -128,21 +146,8 @@ Definition is_attacked_impl (v : bview) (sq by_ : N) : option bool :=
   do qa <- get_attacks_bb QUEEN sq occ;
   do qw <- pbb v by_ QUEEN;
   if meets qa qw then Some true else
-  (* 385: if p.enPassantSquare != SqNone { switch by { *)
-  if vep v =? 64 then Some false else
-  if by_ =? WHITE then
-    (* 389: if p.board[p.enPassantSquare.To(South)] == BlackPawn && p.enPassantSquare.To(South) == sq *)
-    do t <- sq_to (vep v) DS;
-    do pc <- board_at v t;
-    if (pc =? mk_piece BLACK PAWN) && (t =? sq) then ep_neighbours v sq (mk_piece WHITE PAWN)
-    else Some false
-  else if by_ =? BLACK then
-    (* 403: if p.board[p.enPassantSquare.To(North)] == WhitePawn && p.enPassantSquare.To(North) == sq *)
-    do t <- sq_to (vep v) DN;
-    do pc <- board_at v t;
-    if (pc =? mk_piece WHITE PAWN) && (t =? sq) then ep_neighbours v sq (mk_piece BLACK PAWN)
-    else Some false
-  else Some false.
+  (* 385-417 *)
+  is_attacked_ep v sq by_.
 
 (** ** position.go:517  HasCheck (the value computed when the cache flag is TBD)
        check := p.IsAttacked(p.kingSquare[p.nextPlayer], p.nextPlayer.Flip()) *)
